@@ -36,13 +36,30 @@ func runC10Schema(seed int64) string {
 			}
 		}
 	}
+	// banner lines above the header (the header rows are then given in the metasheet: up to row 8)
+	banner := 0
+	if r.Intn(4) == 0 {
+		banner = 1 + r.Intn(5)
+		width := len(gs.spec.Rows[0])
+		var rows [][]string
+		for i := 0; i < banner; i++ {
+			line := make([]string, width)
+			line[0] = "# banner " + itoa(int64(i+1))
+			rows = append(rows, line)
+		}
+		gs.spec.Rows = append(rows, gs.spec.Rows...)
+	}
 	run := func(transposed bool) (map[string]string, map[string]string, string) {
 		w := newWorkspace()
 		defer w.cleanup()
-		spec := sheetSpec{Name: "HeroConf", Rows: gs.spec.Rows}
+		spec := sheetSpec{Name: "HeroConf", Rows: gs.spec.Rows, Meta: map[string]string{}}
+		if banner > 0 {
+			spec.Meta["Namerow"], spec.Meta["Typerow"], spec.Meta["Noterow"], spec.Meta["Datarow"] =
+				itoa(int64(banner+1)), itoa(int64(banner+2)), itoa(int64(banner+3)), itoa(int64(banner+4))
+		}
 		if transposed {
 			spec.Rows = transposeRows(gs.spec.Rows)
-			spec.Meta = map[string]string{"Transpose": "true"}
+			spec.Meta["Transpose"] = "true"
 		}
 		spec.Ragged = ragged
 		b := bookSpec{Name: "Fuzz", Sheets: []sheetSpec{spec}}
